@@ -163,8 +163,11 @@ def planeParamsFromPoints(pt1, pt2, pt3):
     # few metres away must still be recognised as such
     size = sqrt(max(mag2(pt1), mag2(pt2), mag2(pt3)))
     len12, len13 = sqrt(mag2(d12)), sqrt(mag2(d13))
-    epsilon *= max(1.0, (len12 * len13 + size * (len12 + len13))
-                   / sqrt(normal_len2))
+    # (about five units of the last place per unit of conditioning: a
+    # plane that misses the origin by much more than the rounding error must
+    # not be taken for one through the origin)
+    epsilon = max(epsilon, 1e-15 * (len12 * len13 + size * (len12 + len13))
+                  / sqrt(normal_len2))
     pos_epsilon = epsilon * max(1.0, size)
     if pos < -pos_epsilon:
         # make sure the origin lies on the negative side of the plane
